@@ -47,10 +47,10 @@ type Prog struct {
 	SSA      *ssa.Program
 	SrcFuncs []*ssa.Function // functions (incl. anonymous) of analysed packages, sorted
 
-	cgOnce sync.Once
-	cg     *callgraph.Graph
+	cgOnce  sync.Once
+	cg      *callgraph.Graph
 	chaOnce sync.Once
-	chaG   *callgraph.Graph
+	chaG    *callgraph.Graph
 
 	fileCache map[string]*ast.File
 }
